@@ -37,7 +37,7 @@ def c14_sortkey_total_order(run, w, rule_id="C14-R5"):
     raise AnalysisError("SortKey.__lt__: fewer than two verdicts inside the loop")
   def side(e):
     """'a' / 'b' when the expression is built from one of the two compared values only."""
-    names = {x.id for x in ast.walk(flow.du.inline(e, stop=(a, b))) if isinstance(x, ast.Name)}
+    names = {x.id for x in ast.walk(H.inline(flow, e, stop=(a, b))) if isinstance(x, ast.Name)}
     if a in names and b not in names:
       return a
     if b in names and a not in names:
@@ -59,7 +59,7 @@ def c14_sortkey_total_order(run, w, rule_id="C14-R5"):
           strict.append((t, 1 if l == a else -1))
     if len(strict) == 1:
       want = strict[0][1]
-      v = flow.du.inline(case.value) if case.value is not None else None
+      v = H.inline(flow, case.value) if case.value is not None else None
       ok = isinstance(v, ast.Compare) and len(v.ops) == 1 and isinstance(v.ops[0], ast.Eq) and \
           {text(v.left), text(v.comparators[0])} == {sign, str(want)}
       why = None if ok else "sign applied inconsistently (expected %s == %d)" % (sign, want)
@@ -69,7 +69,7 @@ def c14_sortkey_total_order(run, w, rule_id="C14-R5"):
            "a column decides the order only when its two values differ strictly", ok,
            witness=why, fi=fn.fi, node=case.stmt)
   ok = len(outer) == 1 and not outer[0].atoms and outer[0].value is not None and \
-      text(flow.du.inline(outer[0].value)) == "self.row_id < other.row_id" and \
+      text(H.inline(flow, outer[0].value)) == "self.row_id < other.row_id" and \
       fn.node.body[-1] is outer[0].stmt
   run.ob(R, fn.qualname, "return self.row_id < other.row_id", "rows equal in every sort column "
          "are ordered by ascending row id", ok, fi=fn.fi)
@@ -97,7 +97,7 @@ def c13_reset_all_keys(run, w, rule_id="C13-R2"):
   uses = [c for c in calls_in(fn.node) if isinstance(c.func, ast.Attribute) and
           c.func.attr == "get_new_keys_iter"]
   loops = [s for s in fn.node.body if isinstance(s, ast.For) and
-           is_keyset(flow.du.inline(s.iter))]
+           is_keyset(H.inline(flow, s.iter))]
   run.ob(rule_id, fn.qualname, "new_keys = set(self._mapping.get_new_keys_iter(rec))",
          "all keys of the changed record are considered (no filter)",
          len(uses) == 1 and len(loops) == 1, fi=fn.fi)
@@ -111,7 +111,7 @@ def c13_reset_all_keys(run, w, rule_id="C13-R2"):
          "the cached order is dropped for each of them unconditionally", ok, fi=fn.fi)
   cases = [c for c in H.return_cases(fn.node)]
   ok = len(cases) == 1 and len(loops) == 1 and cases[0].value is not None and \
-      text(flow.du.inline(cases[0].value)) == text(flow.du.inline(loops[0].iter))
+      text(H.inline(flow, cases[0].value)) == text(H.inline(flow, loops[0].iter))
   run.ob(rule_id, fn.qualname, "return new_keys", "the same keys are reported as affected",
          ok, fi=fn.fi)
 
